@@ -282,8 +282,9 @@ func genEntryBytes(t *rapid.T, id int) []byte {
 		return []byte(fmt.Sprintf("v1 %x %x %20d %20d\n", cachekit.ID(id), out, -size-1, tm))
 	case 5: // blank size
 		return []byte(fmt.Sprintf("v1 %x %x %20s %20d\n", cachekit.ID(id), out, "", tm))
-	case 6: // overflowing size
-		return []byte(fmt.Sprintf("v1 %x %x %20s %20d\n", cachekit.ID(id), out, "99999999999999999999", tm))
+	case 6: // size at and beyond the limits of int64 / uint64, or tiny variations of the real one
+		big := rapid.SampledFrom([]string{"99999999999999999999", "9223372036854775807", "9223372036854775808", "18446744073709551615", "18446744073709551616", "4294967296", "2147483648", "-0", "0x10", "1e3", "00000000000000000139"}).Draw(t, "bigsize")
+		return []byte(fmt.Sprintf("v1 %x %x %20s %20d\n", cachekit.ID(id), out, big, tm))
 	case 7: // wrong size
 		return []byte(cachekit.Entry(cachekit.ID(id), out, size+int64(rapid.IntRange(-2, 2).Draw(t, "ds")), tm))
 	case 8: // missing newline
@@ -293,7 +294,7 @@ func genEntryBytes(t *rapid.T, id int) []byte {
 	case 10: // one byte short at front
 		return []byte(e[1:])
 	case 11: // bad time
-		return []byte(fmt.Sprintf("v1 %x %x %20d %20s\n", cachekit.ID(id), out, size, rapid.SampledFrom([]string{"-1", "", "x", "+5", "99999999999999999999"}).Draw(t, "tm")))
+		return []byte(fmt.Sprintf("v1 %x %x %20d %20s\n", cachekit.ID(id), out, size, rapid.SampledFrom([]string{"-1", "", "x", "+5", "99999999999999999999", "9223372036854775808", "18446744073709551615", "-9223372036854775808", "0"}).Draw(t, "tm")))
 	case 12: // separators damaged
 		b := []byte(e)
 		pos := rapid.SampledFrom([]int{0, 1, 2, 3 + 64, 3 + 64 + 1 + 64, 3 + 64 + 1 + 64 + 1 + 20, len(e) - 1}).Draw(t, "sep")
